@@ -132,6 +132,9 @@ def switch_atom(body, sw_bb):
                 return {"kind": "cmp", "op": rv["op"], "lhs": rv["a"], "rhs": rv["b"], "true": tt, "false": ff, "bb": sw_bb}
             return None
         # defined by the call that ends a (unique) predecessor
+        if 1 <= cur <= body.mir["argc"] and not any(
+                s2["k"] == "assign" and s2["place"]["l"] == cur and not s2["place"]["p"] for _, _, s2 in body.stmts()):
+            return {"kind": "param", "param": cur, "true": tt, "false": ff, "bb": sw_bb}
         preds = [p for p in body.preds()[bb] if not body.blocks[p]["cleanup"]]
         if len(preds) != 1:
             return None
